@@ -237,4 +237,88 @@ Proof.
   - apply return_later; auto.
 Qed.
 
+
+(* ------------------------------------------------------------------ Callback *)
+Lemma remove_one_in_range : forall s n it rest, remove_one it (inflight (node s n)) = Some rest -> n < length (nodes s).
+Proof.
+  intros s n it rest H. destruct (Nat.lt_ge_cases n (length (nodes s))) as [|G]; auto.
+  rewrite (node_out _ _ G) in H; discriminate.
+Qed.
+
+Lemma outcome_ok_cb_not_later : forall k o, outcome_ok k o true = true -> o <> OLater.
+Proof. intros k o H E; subst; destruct k; discriminate. Qed.
+
+Lemma ninv_ext : forall s s' c, nodes s' = nodes s -> tr s' = tr s -> ninv nt s c -> ninv nt s' c.
+Proof. intros s s' c HN HT H. unfold ninv, node in *. rewrite HN, HT. exact H. Qed.
+
+Lemma step_Callback_count : forall s n it o s', step nt T s (Callback n it o) = Ok s' -> inv_count nt s -> inv_count nt s'.
+Proof.
+  intros s n it o s' H I; unfold step in H.
+  destruct (remove_one it (inflight (node s n))) as [rest|] eqn:HRm; try discriminate.
+  destruct (outcome_ok (nkind (info nt n)) o true) eqn:HO; try discriminate.
+  inversion H; subst; clear H.
+  pose proof (remove_one_in_range _ _ _ _ HRm) as HR. pose proof (outcome_ok_cb_not_later _ _ HO) as HNL.
+  remember (deliveries nt n it o) as D eqn:ED.
+  match goal with |- context [count_outcome ?y o] => set (X0 := y) end.
+  set (Y := count_outcome X0 o). set (s2 := set_node s n Y).
+  match goal with |- inv_count nt (log ?z _) => set (s3 := z) end.
+  assert (A : nodes s3 = nodes s2 /\ mn s3 = mn s /\ tr s3 = tr s
+              /\ forall c x, pend_cbs c x s3 = pend_cbs c x s + cnt_pair c x D).
+  { unfold s3. destruct D as [|d D'].
+    - split; [|split; [|split]]; auto; intros; rewrite cnt_pair_nil, Nat.add_0_r; reflexivity.
+    - split; [|split; [|split]]; auto. intros. unfold pend_cbs. rewrite cbs_set_cbs, sumf_app.
+      cbn [sumf snd]. lia. }
+  destruct A as (A1&A2&A3&A4). clearbody s3.
+  apply inv_count_split in I; destruct I as [IC IR]. apply inv_count_split; split.
+  - intros c x. rewrite tr_log1, A3, produced_cons. cbn [produced_by]. rewrite <- ED. rewrite node_log.
+    assert (P : pending c x (log s3 [TCb n it o]) = pending c x s + cnt_pair c x D).
+    { unfold pending. change (pend_cbs c x (log s3 [TCb n it o])) with (pend_cbs c x s3). rewrite A4.
+      rewrite (pend_main_eq c x (log s3 [TCb n it o]) s) by (rewrite mn_log; auto).
+      rewrite (pend_workers_eq c x s (log s3 [TCb n it o])); [lia| |].
+      - rewrite nodes_log, A1. unfold s2. autorewrite with exb; auto.
+      - intro m. unfold node at 1. rewrite nodes_log, A1. fold (node s2 m). unfold s2.
+        destruct (Nat.eq_dec m n) as [->|Hm].
+        + rewrite node_set_node_same by auto. unfold wsum, Y. rewrite ws_count_outcome. reflexivity.
+        + rewrite node_set_node_other by auto; auto. }
+    rewrite P. specialize (IC c x). unfold node at 1 2. rewrite A1. fold (node s2 c). unfold s2.
+    destruct (Nat.eq_dec c n) as [->|Hc].
+    + rewrite node_set_node_same by auto. unfold Y. autorewrite with exb. unfold X0; cbn [offered dropped]. lia.
+    + rewrite node_set_node_other by auto. lia.
+  - apply inv_rest_ninv in IR; destruct IR as [HL IN]. apply inv_rest_ninv; split.
+    + rewrite nodes_log, A1. unfold s2. autorewrite with exb; auto.
+    + intro c. apply (ninv_ext (log s2 [TCb n it o])); [rewrite !nodes_log; auto|rewrite !tr_log1; f_equal; auto|].
+      unfold s2. destruct (Nat.eq_dec c n) as [->|Hc].
+      * specialize (IN n). unfold ninv in *; cbv zeta in *. destruct IN as (I1&I2&I3&I4&I5&I6&I7).
+        rewrite tr_log1, tr_set_node, node_log, nodes_log, length_nodes_set_node, node_set_node_same by auto.
+        unfold Y. autorewrite with exb.
+        destruct (count_outcome_counts X0 o it) as (C1&C2&C3). rewrite C1, C2, C3.
+        unfold X0; cbn [q offered dropped inflight ws c_recv c_proc c_filt c_fail c_disc].
+        rewrite entered_cons, rets_cons, laters_cons, cbacks_cons, n_proc_cons, n_filt_cons, n_fail_cons.
+        cbn [entered1 rets1 laters1 cbacks1 outcomes1]. rewrite Nat.eqb_refl. simpl app.
+        split; [auto|]. split; [auto|]. split; [auto|].
+        split; [intro L; specialize (I4 L); lia|].
+        split; [auto|]. split; [|auto].
+        intro y. specialize (I6 y). rewrite (count_item_remove_one _ _ _ HRm y) in I6. simpl. lia.
+      * apply ninv_other; auto. simpl. apply Nat.eqb_neq; auto.
+Qed.
+
+(* ------------------------------------------------------------------ SrcEmit *)
+Lemma step_SrcEmit_count : forall s e s', step nt T s (SrcEmit e) = Ok s' -> inv_count nt s -> inv_count nt s'.
+Proof.
+  intros s e s' H I; unfold step in H.
+  destruct (src s) eqn:ES; try discriminate. destruct (mn s) eqn:EM; try discriminate.
+  inversion H; subst; clear H.
+  match goal with |- context [set_mn s ?m] => set (M := m) end.
+  apply inv_count_split in I; destruct I as [IC IR]. apply inv_count_split; split.
+  - intros c x. rewrite tr_log1, tr_set_mn, produced_cons. cbn [produced_by]. rewrite node_log, node_set_mn.
+    specialize (IC c x). unfold pending in *.
+    change (pend_workers c x (log (set_mn s M) [TEmit e])) with (pend_workers c x s).
+    change (pend_cbs c x (log (set_mn s M) [TEmit e])) with (pend_cbs c x s).
+    unfold pend_main in *. rewrite mn_log, mn_set_mn. rewrite EM in IC. unfold M.
+    destruct (roots nt) as [|r rs] eqn:ER.
+    + rewrite cnt_nat_nil. destruct (item_eqb (e, 0%Z) x); lia.
+    + lia.
+  - apply inv_rest_ninv in IR; destruct IR as [HL IN]. apply inv_rest_ninv; split; auto.
+Qed.
+
 End MovingSteps.
